@@ -206,6 +206,9 @@ func classify(exp, why, obs []string, r refResult, disabled bool, hooks []hx.Hoo
 
 func opName(o hx.Op) string {
 	n := o.Kind
+	if o.Atomic {
+		n += "[atomic]"
+	}
 	if o.KeepHistory {
 		n += "[keep-history]"
 	}
@@ -270,7 +273,13 @@ func check(c *core.Ctx, t *opspace.Transition) {
 	}
 	// model state before and after this step
 	_, before, _ := model(t.Init, hooks, t.Path[:len(t.Path)-1])
-	r, after, _ := model(t.Init, hooks, t.Path)
+	r, after, failures := model(t.Init, hooks, t.Path)
+	failuresBefore := failures
+	if r.Failed {
+		failuresBefore--
+	}
+	// probe: hooks disabled + --atomic + the release resources never become ready
+	probe := op.Atomic && op.DisableHooks && t.Step.Fault != nil
 	exp, why := sortDeleteRuns(r.Trace, r.Why)
 	rawObs, hookReqs := project(res.Log, hooks)
 	obs, _ := sortDeleteRuns(rawObs, nil)
@@ -283,8 +292,8 @@ func check(c *core.Ctx, t *opspace.Transition) {
 		if clause == "order" || clause == "policy" || clause == "sequential" || clause == "create" || clause == "selection" {
 			key = core.SanitizeKey(fmt.Sprintf("%s|%s", clause, detail)) // execHook is shared by all operations
 		}
-		c.Violate(prop, key, fmt.Sprintf("%s/%s: %s [driver=%s init=%s history=%v expected=%v observed=%v err=%q]", clause, detail, what, t.Driver, t.Init, hist, exp, obs, res.Err),
-			replayData{Replay: opspace.Replay{Driver: t.Driver, Init: t.Init, Path: t.Path}, Key: key, Tier: c.Tier})
+		c.Violate(prop, key, fmt.Sprintf("%s/%s: %s [driver=%s init=%s history=%v expected=%v observed=%v err=%q]", clause, detail, what, t.Driver, initName(t.Init), hist, exp, obs, res.Err),
+			replayData{Replay: opspace.Replay{Driver: t.Driver, Init: initName(t.Init), Path: t.Path}, Key: key, Tier: c.Tier})
 	}
 
 	// statistics, vacuity floors
@@ -296,7 +305,27 @@ func check(c *core.Ctx, t *opspace.Transition) {
 	if op.DisableHooks {
 		outcome = "hooks-disabled"
 	}
-	c.Outcome(opName(hx.Op{Kind: op.Kind, KeepHistory: op.KeepHistory}) + ":" + outcome)
+	if probe {
+		outcome = "hooks-disabled-never-ready"
+	}
+	c.Outcome(opName(hx.Op{Kind: op.Kind, KeepHistory: op.KeepHistory, Atomic: op.Atomic}) + ":" + outcome)
+	if op.Kind == "rollback" && failuresBefore > 0 && !op.DisableHooks {
+		c.Floor("rollback-after-failed-upgrade")
+		ups := 0
+		for _, st := range t.Path {
+			if st.Op.Kind == "upgrade" {
+				ups++
+			}
+		}
+		if ups == 2 {
+			c.Floor("rollback-after-second-upgrade-failed")
+		}
+		for i, tok := range exp {
+			if verbOf(tok) == "DELETE" && why[i] == "before-hook-creation" {
+				c.Floor("rollback:leftover-of-failed-upgrade-deleted-first")
+			}
+		}
+	}
 	c.Floor("op:" + op.Kind)
 	orderFloors(c, hooks, op.Kind, r)
 	for i, tok := range exp {
@@ -344,13 +373,32 @@ func check(c *core.Ctx, t *opspace.Transition) {
 		seenRan[h] = true
 	}
 	if t.Faulty == 1 && len(exp) >= 7 && t.Depth >= 2 {
-		c.Sample(map[string]any{"driver": t.Driver, "init": t.Init, "history": hist, "expected_trace": exp, "observed_trace": obs, "error": res.Err})
+		c.Sample(map[string]any{"driver": t.Driver, "init": initName(t.Init), "history": hist, "expected_trace": exp, "observed_trace": obs, "error": res.Err})
 	}
 
-	if !r.Failed && res.Failed {
-		// The operation failed for a reason that is not a hook failure. The statement
-		// says nothing about that; the rest of the trace is not comparable. Counted,
-		// and the history is not searched on from here.
+	// clause: hooks disabled => no request at all on a hook object (including the
+	// operations Helm starts on its own for --atomic)
+	if op.DisableHooks && len(hookReqs) > 0 {
+		violate("disabled", "hook-request-with-hooks-disabled", fmt.Sprintf("hooks are disabled but the server saw %v", hookReqs))
+	}
+	if probe {
+		// the log also holds the automatic rollback / uninstall: only the clause above applies
+		if res.Failed {
+			c.Floor("disabled:atomic-" + op.Kind + "-undone")
+		}
+		lastBad = t
+		return
+	}
+	hookFailedObserved := false
+	for _, tok := range obs {
+		if (verbOf(tok) == "POST" || verbOf(tok) == "WAIT") && strings.HasSuffix(tok, " fail") {
+			hookFailedObserved = true
+		}
+	}
+	if !r.Failed && res.Failed && !hookFailedObserved {
+		// The operation failed although no hook failed, neither in the reference nor in
+		// the log. The statement says nothing about that and the rest of the trace is
+		// not comparable; the history is not searched on from here.
 		c.Count("op_failed_without_hook_failure", 1)
 		if !noted {
 			noted = true
@@ -359,9 +407,17 @@ func check(c *core.Ctx, t *opspace.Transition) {
 		lastBad = t
 		return
 	}
-	// clause: hooks disabled => no request at all on a hook object
-	if op.DisableHooks && len(hookReqs) > 0 {
-		violate("disabled", "hook-request-with-hooks-disabled", fmt.Sprintf("hooks are disabled but the server saw %v", hookReqs))
+	// A rollback that follows a failed upgrade may find the release resources
+	// already in the target state and send no mutation at all: then there is no
+	// release-resource mutation the hooks could be misplaced against.
+	if op.Kind == "rollback" && failuresBefore > 0 && !has(obs, "RES") {
+		var e2, w2 []string
+		for i, tok := range exp {
+			if tok != "RES" {
+				e2, w2 = append(e2, tok), append(w2, why[i])
+			}
+		}
+		exp, why = e2, w2
 	}
 	// clauses on the ordered trace
 	if strings.Join(exp, ";") != strings.Join(obs, ";") {
